@@ -32,7 +32,12 @@ func newWorld(kind string, first []string) world {
 
 		return newSSWorld[plainEl](false)
 	case "ev":
-		return newEVWorld()
+		ty := "int"
+		if len(first) > 2 {
+			ty = first[2]
+		}
+
+		return newEVWorld(ty)
 	case "wg":
 		return &wgWorld{}
 	}
@@ -114,6 +119,12 @@ func runCase(r *hx.Run, sub uint64, ops []string) {
 		// the call never returned (endless loop or self-deadlock): the goroutine is abandoned, its buffer is dropped
 		hung["seq:"+construct] = true
 		i := int(rec.cur.Load())
+		// the op lines up to the call that hangs go into the replay (the abandoned goroutine sits in that call and does
+		// not append any more)
+		for k := 0; k < i && k < len(rec.lines); k++ {
+			r.Line(rec.lines[k][0], rec.lines[k][1])
+		}
+		r.Line(ops[i], "hang")
 		r.Fail("progress-watchdog", fmt.Sprintf("sequential call %q did not return within %s; history: %s", ops[i], seqTimeout, strings.Join(ops[:i+1], "; ")),
 			map[string]string{"construct": construct, "trigger": strings.Fields(ops[i])[1], "mode": "sequential-hang"})
 
@@ -289,27 +300,6 @@ func shuffled(rng *hx.Rng, xs []int) []int {
 	return xs
 }
 
-func genEV(rng *hx.Rng, n int) []string {
-	ops := []string{"ev new"}
-	top := 0
-	for len(ops) < n {
-		if rng.Chance(3, 5) {
-			ops = append(ops, fmt.Sprintf("ev event %d", rng.Range(0, top+4)))
-		} else {
-			s := top + rng.Range(-2, 3)
-			if s < 0 {
-				s = 0
-			}
-			if s > top {
-				top = s
-			}
-			ops = append(ops, fmt.Sprintf("ev evict %d", s))
-		}
-	}
-
-	return ops
-}
-
 func genWG(rng *hx.Rng, n int) []string {
 	els := func() []int {
 		var xs []int
@@ -404,6 +394,17 @@ func main() {
 		{"sr new", "sr apply 0 1,2,3 -", "sr add 1 2", "sr create 0 1", "sr replaceset 0 0 ro", "sr replacemut 1 0 4", "sr replacemut 0 1 5", "sr delall 1 1"},
 		// the SortedSet lock inversion (repaired): Add/Delete of an element against updates of its weight
 		{"stress sortedrace plain 1500 1", "stress sortedrace less 1500 2"},
+		// Evict of the largest value of a narrow slot type (the probing loop wrapped around and never ended: 4972df2), of
+		// ranges at and around 4096 / 65536 / 2^20 slots, requests for evicted slots right afterwards
+		{"ev new u8", "ev event 255", "ev event 254", "ev evict 250", "ev event 253", "ev evict 255", "ev event 255", "ev event 0", "ev evict 255"},
+		{"ev new i8", "ev evict 127", "ev event 127", "ev event 1"},
+		{"ev new u16", "ev event 65535", "ev event 4096", "ev evict 4095", "ev event 4095", "ev evict 65534", "ev evict 65535", "ev event 65535"},
+		{"ev new i16", "ev event 32767", "ev evict 32767"},
+		{"ev new slot32", "ev event 4096", "ev event 4097", "ev event 5000", "ev evict 4096", "ev event 0", "ev event 4096", "ev evict 8193", "ev event 4097", "ev event 8193",
+			"ev event 73730", "ev evict 73729", "ev event 73729", "ev evict 73730", "ev event 1122306", "ev event 1122307", "ev evict 1122306", "ev event 1122306", "ev event 73731"},
+		{"ev new u64", "ev event 18446744073709551615", "ev event 1048576", "ev evict 1048576", "ev event 1048576", "ev event 18446744073709551615", "ev evict 1048577"},
+		{"ev new f64", "ev event 4097", "ev evict 4096", "ev event 4096", "ev evict 4097", "ev event 9007199254740992"},
+		{"ev new f32", "ev event 16777216", "ev event 70000", "ev evict 65536", "ev evict 70000"},
 		// concurrent EvictionEvent callers per fresh slot must share one event (GetOrCreate must re-check under its lock)
 		{"stress evictsame 4000 8 1"},
 	}
